@@ -1,0 +1,27 @@
+//go:build verif
+
+// Verification hook for properties C08-C10. Add-only; compiled only with -tags verif.
+
+package workflow
+
+import (
+	"github.com/AliceO2Group/Control/common/gera"
+	"github.com/AliceO2Group/Control/core/task"
+)
+
+// VerifC08NewHookTaskRole builds a task role with hook traits (trigger, timeout, critical) whose
+// task already exists, the state a hook task role is in once the environment is deployed.
+func VerifC08NewHookTaskRole(name string, traits task.Traits, taskId string) Role {
+	r := &taskRole{
+		roleBase: roleBase{
+			Name:     name,
+			Defaults: gera.MakeMap[string, string](),
+			Vars:     gera.MakeMap[string, string](),
+			UserVars: gera.MakeMap[string, string](),
+		},
+		Traits: traits,
+	}
+	r.status.status = task.ACTIVE
+	r.Task = task.VerifC08NewHookTask(name, taskId, r)
+	return r
+}
